@@ -179,6 +179,8 @@ fn compile_imm(goenv: &GlobalGoEnv, imm: &anf::ImmExpr) -> goast::Expr {
                     go_package_alias(&extern_fn.package_path),
                     extern_fn.go_name
                 ),
+                // the program's entry function is emitted as main0 (Go's main calls it)
+                None if name == "main" || name.ends_with("::main") => "main0".to_string(),
                 None => go_ident(name),
             },
             ty: tast_ty_to_go_type(&imm_ty(imm)),
